@@ -91,3 +91,171 @@ Theorem overlap_verdict_iff i a vs evs :
   snd (chk15 (COverlap i a vs evs)) = 0 <->
   exists assign, Explains {| cfg_iss := i; cfg_aud := a |} vs evs 0 0 0 0 assign.
 Proof. cbn [chk15 snd]. apply chk_overlap_iff. Qed.
+
+(* ------------------------------------------------------------------------------------------------------------
+   ... and the logs the MODEL produces are accepted.  The fetch machine of Model/Jwt.v (one fetcher, as in the code)
+   is run together with a client issuing announces one after the other; an announce reads the register at some
+   instant between its start and its end and is decided under that version.  Whatever the schedule of serve /
+   install / rotate / start / read / end events, the log is explained - by the versions the announces read.
+   So an alarm of the overlap judge (reason 22) always means behaviour the one-fetcher model cannot show. *)
+Require Import Chihaya.Proofs.JwtP.
+
+Inductive aev :=
+| AFetch (e : fev)
+| AStart | ARead
+| AEnd (now : Z) (ih : bytes) (param : option tokv) (o : Z) (o_msg : bytes).
+
+Section Produced.
+  Variables (cfg : config) (vs : list (list (bytes * Z))).
+
+  (* announce in flight: None = none; Some None = started; Some (Some v) = has read version v *)
+  Definition astate := (fstate * option (option nat))%type.
+
+  (* new state, log entries emitted, version assigned, "the outcome recorded is the model's under the version read" *)
+  Definition astep (s : astate) (e : aev) : astate * list oev * list nat * bool :=
+    let '(f, a) := s in
+    match e with
+    | AFetch (FBegin w) =>
+      match plook w (f_pend f) with
+      | Some _ => (s, [], [], true)
+      | None => ((fstep f (FBegin w), a), [OServed (f_cur f)], [], true)
+      end
+    | AFetch (FEnd w) =>
+      match plook w (f_pend f) with
+      | Some v => ((fstep f (FEnd w), a), [OReturned v], [], true)
+      | None => (s, [], [], true)
+      end
+    | AFetch FRotate => ((fstep f FRotate, a), [], [], true)
+    | AStart => match a with None => ((f, Some None), [OAnnS], [], true) | _ => (s, [], [], true) end
+    | ARead => match a with Some None => ((f, Some (Some (f_reg f))), [], [], true) | _ => (s, [], [], true) end
+    | AEnd now ih param o o_msg =>
+      match a with
+      | Some (Some v) => ((f, None), [OAnnE now ih param o o_msg], [v], ann_ok cfg vs now ih param o o_msg v)
+      | _ => (s, [], [], true)
+      end
+    end.
+  Fixpoint arun (s : astate) (evs : list aev) : list oev * list nat * bool :=
+    match evs with
+    | [] => ([], [], true)
+    | e :: r =>
+      let '(s', l, a, ok) := astep s e in
+      let '(l', a', ok') := arun s' r in
+      (l ++ l', a ++ a', ok && ok')
+    end.
+  Definition serial_ev (e : aev) : bool := match e with AFetch e => only_fetcher 0 e | _ => true end.
+
+  Definition ainv (f : fstate) (a : option (option nat)) (prev lo : nat) : Prop :=
+    match a with
+    | None => True
+    | Some None => (lo <= f_reg f)%nat
+    | Some (Some v) => (lo <= v)%nat /\ (v <= f_srv f)%nat /\ (prev <= v)%nat /\ (v <= f_reg f)%nat
+    end.
+
+  Lemma produced_explained evs : forall f a prev lo log assign,
+    finv f -> (prev <= f_reg f)%nat -> ainv f a prev lo ->
+    forallb serial_ev evs = true ->
+    arun (f, a) evs = (log, assign, true) ->
+    Explains cfg vs log (f_srv f) (f_ret f) prev lo assign.
+  Proof.
+    induction evs as [|e r IH]; intros f a prev lo log assign I Hp Ha Ser R; cbn [arun] in R.
+    - injection R as <- <-. constructor.
+    - cbn [forallb] in Ser. apply andb_true_iff in Ser as [Se Ser].
+      destruct (astep (f, a) e) as [[[s' l] asg] ok] eqn:St.
+      destruct (arun s' r) as [[l' a'] ok'] eqn:Rr.
+      injection R as <- <- Hok. apply andb_true_iff in Hok as [Hok ->].
+      destruct s' as [f' a2].
+      destruct I as (Iret & Irs & Isc & Ipend).
+      assert (I0 : finv f) by (repeat split; assumption).
+      destruct e as [[w|w|]| | |now ih param o o_msg]; cbn [astep] in St.
+      + (* FBegin *)
+        cbn [serial_ev only_fetcher] in Se. apply Nat.eqb_eq in Se. subst w.
+        destruct (plook 0 (f_pend f)) as [v|] eqn:P.
+        * injection St as <- <- <- <- <-. cbn [app]. apply (IH f a prev lo l' a'); auto.
+        * injection St as <- <- <- <- <-. cbn [app]. constructor.
+          destruct (finv_step f (FBegin 0) eq_refl I0) as (I' & _ & _ & _).
+          assert (E : fstep f (FBegin 0) = {| f_cur := f_cur f; f_reg := f_reg f; f_pend := (0%nat, f_cur f) :: f_pend f;
+                                              f_srv := Nat.max (f_srv f) (f_cur f); f_ret := f_ret f |})
+            by (cbn [fstep]; now rewrite P).
+          specialize (IH (fstep f (FBegin 0)) a prev lo l' a' I').
+          rewrite E in IH. cbn [f_srv f_ret f_reg] in IH. rewrite P in Rr. apply IH; auto.
+          destruct a as [[v|]|]; cbn [ainv f_reg f_srv] in *; auto. lia.
+      + (* FEnd *)
+        cbn [serial_ev only_fetcher] in Se. apply Nat.eqb_eq in Se. subst w.
+        destruct (plook 0 (f_pend f)) as [v|] eqn:P.
+        * injection St as <- <- <- <- <-. cbn [app]. constructor.
+          destruct (finv_step f (FEnd 0) eq_refl I0) as (I' & _ & _ & _).
+          assert (E : fstep f (FEnd 0) = {| f_cur := f_cur f; f_reg := v; f_pend := pdrop 0 (f_pend f);
+                                            f_srv := f_srv f; f_ret := Nat.max (f_ret f) v |})
+            by (cbn [fstep]; now rewrite P).
+          assert (Hv : (f_reg f <= v)%nat).
+          { destruct Ipend as [Pe|(v0 & Pe & Hv1 & Hv2)]; rewrite Pe in P; cbn in P; [discriminate|]. now injection P as <-. }
+          specialize (IH (fstep f (FEnd 0)) a prev lo l' a' I').
+          rewrite E in IH. cbn [f_srv f_ret f_reg] in IH. rewrite P in Rr. apply IH; auto; [lia|].
+          destruct a as [[u|]|]; cbn [ainv f_reg f_srv] in *; auto; lia.
+        * injection St as <- <- <- <- <-. cbn [app]. apply (IH f a prev lo l' a'); auto.
+      + (* FRotate *)
+        injection St as <- <- <- <- <-. cbn [app].
+        destruct (finv_step f FRotate eq_refl I0) as (I' & _ & _ & _).
+        specialize (IH (fstep f FRotate) a prev lo l' a' I'). cbn [fstep f_srv f_ret f_reg] in IH. apply IH; auto.
+      + (* AStart *)
+        destruct a as [x|].
+        * injection St as <- <- <- <- <-. cbn [app]. apply (IH f (Some x) prev lo l' a'); auto.
+        * injection St as <- <- <- <- <-. cbn [app]. constructor.
+          apply (IH f (Some None) prev (Nat.max (f_ret f) prev) l' a'); auto. cbn [ainv]. lia.
+      + (* ARead *)
+        destruct a as [[v|]|].
+        * injection St as <- <- <- <- <-. cbn [app]. apply (IH f (Some (Some v)) prev lo l' a'); auto.
+        * injection St as <- <- <- <- <-. cbn [app]. apply (IH f (Some (Some (f_reg f))) prev lo l' a'); auto.
+          cbn [ainv] in *. lia.
+        * injection St as <- <- <- <- <-. cbn [app]. apply (IH f None prev lo l' a'); auto.
+      + (* AEnd *)
+        destruct a as [[v|]|].
+        * injection St as <- <- <- <- <-. cbn [app]. cbn [ainv] in Ha. constructor; [lia|exact Hok|].
+          apply (IH f None v lo l' a'); auto; [lia|exact I].
+        * injection St as <- <- <- <- <-. cbn [app]. apply (IH f (Some None) prev lo l' a'); auto.
+        * injection St as <- <- <- <- <-. cbn [app]. apply (IH f None prev lo l' a'); auto.
+  Qed.
+
+  (* from the state right after NewHook (version 0 fetched and installed): every log of the one-fetcher model is accepted *)
+  Theorem serial_model_logs_accepted evs log assign :
+    forallb serial_ev evs = true ->
+    arun (finit 0, None) evs = (log, assign, true) ->
+    chk_overlap cfg vs log 0 0 0 0 0 = 0.
+  Proof.
+    intros Ser R. apply chk_overlap_iff. exists assign.
+    apply (produced_explained evs (finit 0) None 0%nat 0%nat log assign); auto.
+    - apply finv_init.
+    - exact I.
+  Qed.
+End Produced.
+
+(* ---- the theorem is not vacuous, and its hypothesis "one fetcher" is needed: concrete runs *)
+Definition ex_cfg : config := {| cfg_iss := s2b "iss"; cfg_aud := s2b "aud" |}.
+Definition ex_vs : list (list (bytes * Z)) := [[(s2b "k-a", 0)]; [(s2b "k-b", 1)]].
+Definition ex_ih : bytes := s2b "aaaaaaaaaaaaaaaaaaaa".
+Definition ex_now : Z := 1000000000 * 10 ^ 9.
+Definition ex_tok (kid : bytes) (key : Z) : tokv :=
+  Tok true RS256 (Some kid) (Some (s2b "iss")) (Some [s2b "aud"]) (Some (hex_lower ex_ih)) (Some 2000000000) (Some 0) [key].
+Definition ex_invalid : bytes := match ErrInvalidJWT with ClientErr m => m | _ => [] end.
+Definition ex_acc (kid : bytes) (key : Z) : aev := AEnd ex_now ex_ih (Some (ex_tok kid key)) 0 [].
+Definition ex_rej (kid : bytes) (key : Z) : aev := AEnd ex_now ex_ih (Some (ex_tok kid key)) 1 ex_invalid.
+
+(* one fetcher: a slow fetch overtaken by a rotation; the new key is unknown until the next refresh *)
+Definition ex_serial : list aev :=
+  [AFetch (FBegin 0); AFetch FRotate; AStart; ARead; ex_rej (s2b "k-b") 1; AStart; AFetch (FEnd 0); ARead; ex_acc (s2b "k-a") 0;
+   AFetch (FBegin 0); AStart; ARead; AFetch (FEnd 0); ex_acc (s2b "k-a") 0; AStart; ARead; ex_acc (s2b "k-b") 1; AStart; ARead; ex_rej (s2b "k-a") 0].
+Example serial_example_accepted :
+  forallb serial_ev ex_serial = true /\
+  (let '(log, assign, ok) := arun ex_cfg ex_vs (finit 0, None) ex_serial in
+   ok = true /\ assign = [0; 0; 0; 1; 1]%nat /\ chk_overlap ex_cfg ex_vs log 0 0 0 0 0 = 0).
+Proof. vm_compute. repeat split. Qed.
+
+(* a second fetcher (refresh on demand): the late response of fetch 0 re-installs the withdrawn key; every single
+   verdict is the model's under the version read, yet NO forward-moving choice of versions explains the log *)
+Definition ex_two : list aev :=
+  [AFetch (FBegin 0); AFetch FRotate; AStart; AFetch (FBegin 1); AFetch (FEnd 1); ARead; ex_acc (s2b "k-b") 1;
+   AFetch (FEnd 0); AStart; ARead; ex_acc (s2b "k-a") 0].
+Example two_fetchers_log_rejected :
+  let '(log, assign, ok) := arun ex_cfg ex_vs (finit 0, None) ex_two in
+  ok = true /\ assign = [1; 0]%nat /\ chk_overlap ex_cfg ex_vs log 0 0 0 0 0 = 22.
+Proof. vm_compute. repeat split. Qed.
